@@ -123,7 +123,6 @@ impl Bin {
 
                                 Ok(instrs)
                             }
-                            Reg::Report(_, _, _) => unreachable!(),
                             x => Err(Error::from(format!(
                                 "Flag expression must result in bool: {:?}",
                                 x
@@ -203,7 +202,10 @@ fn compile_expr(e: &Expr, mut scope: &mut Scope) -> Result<(Vec<Instr>, Reg)> {
             }
             Prim::Num(n) => Ok((vec![], Reg::ImmNum(n as u64))),
         },
-        Expr::Cmd(_) | Expr::None => unreachable!(),
+        Expr::Cmd(_) | Expr::None => Err(Error::from(format!(
+            "expected an expression, found {:?}",
+            e
+        ))),
         Expr::Sexp(ref o, ref left_expr, ref right_expr) => {
             let (mut instrs, mut left) = compile_expr(left_expr, &mut scope)?;
             let (mut right_instrs, right) = compile_expr(right_expr, &mut scope)?;
